@@ -172,6 +172,48 @@ def stream_copies(ctx, n, order, tts, aged):
         s.op(1, 'apply', 'xor', refs[0][0], refs[-1][0], None)
     if a._succ != before:
         ctx.violation('C02:copy-shares', 'work in the copy changed the original', M.case())
+    # from now on the two managers number their new nodes independently: the same
+    # question asked in both, after each created OTHER nodes, has the same answer
+    # (nothing computed in one may be remembered by the other)
+    names = list(range(n))
+    for _ in range(3):
+        ta, tb = ctx.rng.getrandbits(1 << n), ctx.rng.getrandbits(1 << n)
+        ops = ctx.rng.sample(['and', 'or', 'xor', 'equiv', 'implies'], 2)
+        res = {}
+        for m, first in ((1, ops[0]), (0, ops[1])):
+            ua = gen.build_tt(s, m, ta, names)
+            ub = gen.build_tt(s, m, tb, names)
+            if ua is None or ub is None:
+                break
+            s.op(m, 'incref', ua)
+            s.op(m, 'incref', ub)
+            res[m] = (ua, ub)
+            s.op(m, 'apply', first, ua, ub, None)       # different work in each manager
+        if len(res) < 2:
+            break
+        for m in (0, 1):
+            ua, ub = res[m]
+            for name in ops:
+                r = s.op(m, 'apply', name, ua, ub, None)
+                e = gen.conn(name, ta, tb, T.full(n))
+                ctx.count('copies-apply')
+                bm = s.impl.mgr[m]
+                got = -1
+                if r is not None:
+                    try:
+                        got = oracle.tt_fast(bm, r, [f'v{i}' for i in range(n)])
+                    except KeyError:
+                        got = -1
+                if got != e:
+                    ctx.violation('C02:copy-shares',
+                                  f'after copy.copy, manager {m}: {name} of {ta:#x},{tb:#x} gave {got:#x}, '
+                                  f'expected {e:#x}', M.case())
+                    return
+            bad = oracle.check_table(s.impl.mgr[m], external=None) if False else None
+        for m in (0, 1):
+            ua, ub = res[m]
+            s.op(m, 'decref', ua)
+            s.op(m, 'decref', ub)
     s.op(2, 'reduction', 0)
     if not s.ok():
         ctx.violation('C02:reduction-failed', 'reduction() raised on a consistent manager', M.case())
